@@ -20,7 +20,8 @@ repository adds around it:
            requester's identity and its call resolvable; nothing is deserialised, bound or
            rehydrated before the cursor opened under the requester's AAD (and, on a miss, the call
            token under the requester's call-AAD with the same call id); every authentication failure
-           gives the same 400.
+           gives the same 400.  Decided for streams that carry call state and for streams that return
+           none (empty call-state segment).
 (e) xh   : `crypto.seal_bytes/open_bytes` envelope layer over an ideal backend primitive: opens
            exactly the byte strings it sealed (same key, aad, version byte), SealError otherwise.
 """
@@ -43,7 +44,7 @@ ENCODED = [st._compute_aad, st._compute_call_aad, *tc.TOKEN_FUNCS, aps._unpack_a
 BOUNDS = (
     "(a) all identities (and method names, once bound), unbounded string lengths; (b) segments <= 3 bytes, keys/AADs <= 2 bytes, arbitrary cursor plaintexts <= 36 bytes, "
     "arbitrary call plaintexts <= %d bytes; (c) all 64-bit created_at, unbounded integer now/ttl; (d) 2 streams, 4x4 identities, 6 cursor-slot x (absent + 7) call-slot "
-    "presentations, cold / warm cache, any request time >= /init (ttl 50); (e) payload <= 2 bytes, same/other key, aad, version byte; envelope untouched / relabelled / "
+    "presentations, cold / warm cache, any request time >= /init (ttl 50), streams with and without call state; (e) payload <= 2 bytes, same/other key, aad, version byte; envelope untouched / relabelled / "
     "any single byte substituted / any truncation / one byte appended" % pick(46, 47)
 )
 OUTSIDE = (
